@@ -43,7 +43,7 @@ pub struct Case {
 }
 
 const TABLES: [&str; 3] = ["A", "B", "C.d"];
-const COLS: [[&str; 3]; 3] = [["k", "x", "s"], ["k", "y", "s"], ["id", "ref", "t"]];
+const COLS: [[&str; 3]; 3] = [["k", "x", "s"], ["k", "y", "s"], ["id", "ref.x", "t"]];
 
 fn int_of(sel: u8) -> V {
     match sel % 5 {
@@ -377,7 +377,7 @@ fn case_strategy(depth: u32) -> impl Strategy<Value = Case> {
 pub fn run(ctx: &Ctx) -> Report {
     let mut rep = Report::new(
         "exploration",
-        "select trees up to depth 3 (4 in thorough) over three base tables (one with a dotted name), filters, projections, inner and left joins including joins of joins, joins of filtered and of projected sub-selects and self-joins, ON conditions over both sides' columns (late-bound to the documented table.column names), unknown table / column names injected in projection, filter and ON; table contents of 0..4 rows with nulls in join columns. Oracle: reference executor (naming rule, nested-loop order, null padding and nullability in left joins, filter, projection): column names, row order, values and nullability must match; unknown names must be reported as errors (also when a side is empty); no panic. Queries that refer to a duplicated column name are skipped (resolution undocumented). Non-trivial = a join with at least one matched and one unmatched pair; distinct by (query, data).",
+        "select trees up to depth 3 (4 in thorough) over three base tables (one with a dotted name and a dotted column name), filters, projections, inner and left joins including joins of joins, joins of filtered and of projected sub-selects and self-joins, ON conditions over both sides' columns (late-bound to the documented table.column names), unknown table / column names injected in projection, filter and ON; table contents of 0..4 rows with nulls in join columns. Oracle: reference executor (naming rule, nested-loop order, null padding and nullability in left joins, filter, projection): column names, row order, values and nullability must match; unknown names must be reported as errors (also when a side is empty); no panic. Queries that refer to a duplicated column name are skipped (resolution undocumented). Non-trivial = a join with at least one matched and one unmatched pair; distinct by (query, data).",
     );
     let mut st = Stats::new();
     let depth = ctx.tier.pick(3, 4);
